@@ -445,7 +445,7 @@ func (propC19) Meta() PropMeta {
 			"ShuffleValues draws from a seed-derived stream keyed by the logical task, so serial and concurrent executions draw the same numbers",
 		},
 		Real: realComponents, Stub: stubComponents,
-		FaultKinds: []string{"preemptions", "stall_steps", "access_stalls", "access_preemptions", "rmw_split_preemptions", "park_on_held_mutex", "park_on_waitgroup"},
+		FaultKinds: []string{"preemptions", "clock_jumps", "stall_steps", "access_stalls", "access_preemptions", "rmw_split_preemptions", "park_on_held_mutex", "park_on_waitgroup"},
 	}
 }
 
